@@ -12,7 +12,7 @@ EV = "quantarhei/qm/liouvillespace/evolutionsuperoperator.py::"
 E = EV + "EvolutionSuperOperator."
 
 META = dict(
-    category="proof",
+    category="other",   # deductive proofs plus bounded stand-ins (labelled; not counted as proved)
     text=("_initialize_data is proved to store the identity superoperator at time zero (both storage modes); "
           "_calculate_remainig_using_first_interval and the time-independent branch of calculate_next (incremental mode, "
           "with and without saving) are proved to satisfy the same recurrence U(t_k) = U(dt) o U(t_{k-1}) cell by cell, so "
